@@ -51,7 +51,9 @@ def schedules(K, pre_opts=(False, "resume", "restart", "resample", "reroute")):
 
 def slotted(K):
     return [row("SL", K), row("SL", K, capacitated=True), row("SL", K, capacitated=True, pre="resume"),
-            row("SL", K, capacitated=True, pre="restart", first=2), row("SL", K, offset=0.5, first=3)]
+            row("SL", K, capacitated=True, pre="restart", first=2), row("SL", K, offset=0.5, first=3),
+            row("SL", K + 1, capacitated=True, pre="resume", slots=[1.0, 2.0, 3.0, 10.0], sizes=[3, 2, 1, 3], first=3, burst=1),
+            row("SL", K + 1, capacitated=True, pre="resample", slots=[1.0, 2.0, 3.0, 10.0], sizes=[3, 2, 1, 3], first=4, burst=1)]
 
 
 def reneging(K):
@@ -174,7 +176,7 @@ def c07_rows(K):
     return blocking(K) + [row("T2", K, prio=True), row("T2", K, c1=3, c2=2, caps=["inf", 0], first=3, burst=1), row("SC", K + 1, blocked=True),
                           row("L2", K, c=[2, 1], caps=[0, 0], first=[2, 1], burst=1), row("RN", K - 1, blockedinto=True), row("CCa", K, nodes=2, blocking=True),
                           row("L2", K - 1, classes=2), row("T2", K + 1, prio=True, c1=3, first=2, burst=1), row("T2", K + 1, prio=True, c1=2, c2=1, first=3, burst=1),
-                          row("RN", K, blockedinto=True, first=2, burst=2)]
+                          row("RN", K, blockedinto=True, first=2, burst=2), row("FK", K + 1, firstA=2, firstB=2)] + ([row("FK", K + 1)] if K > 5 else [])
 
 
 prop("C07", mons=["C07"],
@@ -343,6 +345,10 @@ def c17_rows(K):
         out.append(row("TR", K, base="RN", tracker=t))
     out.append(row("TR", K, base="P1", tracker="NodePopulation", c=1, pre="reroute", to=2))
     out.append(row("TR", K, base="T2", tracker="MatrixBlocking", c1=3, first=3, burst=1))
+    out.append(row("TR", K + 2, base="FK", tracker="MatrixBlocking", c1=4, firstA=2, firstB=2, c2=0))
+    if K > 5:
+        for t in ("NaiveBlocking", "NodeClassMatrix", "GroupedNodePopulation3"):
+            out.append(row("TR", K + 1, base="FK", tracker=t))
     return out
 
 
@@ -361,7 +367,8 @@ def c18_rows(K):
     return [row("DL", K, base="L2", caps=[0, 0]), row("DL", K, base="L2", caps=[0, 0], p=0.5), row("DL", K + 1, base="L2", caps=[1, 1], first=[2, 2]),
             row("DL", K + 1, base="S1", p=1.0, c=2, cap_=0), row("DL", K + 1, base="S1", p=0.5, c=1, cap_=1, first=2), row("DL", K, base="L3", streams=2),
             row("DL", K + 1, base="L3", streams=1, first=3), row("DL", K, base="L2", c=[2, 1], caps=[0, 0], first=[2, 1]), row("DL", K - 1, base="L2", classes=2, caps=[0, 0]),
-            row("DL", K, base="T2", caps=[0, 0], a2=True), row("DL", K, base="L2", caps=[0, 0], tracker="MatrixBlocking")]
+            row("DL", K, base="T2", caps=[0, 0], a2=True), row("DL", K, base="L2", caps=[0, 0], tracker="MatrixBlocking"),
+            row("DL", K + 1, base="DL3"), row("DL", K + 1, base="DL3", c=[2, 2, 1], first=[2, 2, 1])] + ([row("DL", K + 1, base="DL3", c=[3, 1, 1], first=[3, 1, 1]), row("DL", K + 1, base="FK")] if K > 5 else [])
 
 
 prop("C18", mons=["C18"],
@@ -372,7 +379,8 @@ prop("C18", mons=["C18"],
 
 # C19 ------------------------------------------------------------------------------------------------
 def c19_rows(K):
-    return ps(K) + [row("PS", K, capacity=2), row("PS", K, capacity=3, threshold=2, first=4), row("PS", K, capacity=1, first=2)]
+    return ps(K) + [row("PS", K, capacity=2), row("PS", K, capacity=3, threshold=2, first=4), row("PS", K, capacity=1, first=2),
+                    row("PS", K, capacity=1, threshold=2, first=2), row("PS", K, capacity=2, threshold=3, first=3), row("PS", K, capacity=2, threshold=4, first=4, burst=1)]
 
 
 prop("C19", mons=["C19"],
